@@ -1421,7 +1421,11 @@ func (m *RadioTap) DecodeFromBytes(data []byte, df gopacket.DecodeFeedback) erro
 			headlen += 2
 		}
 		if headlen%4 == 2 && len(payload) >= headlen+2 {
-			payload = append(payload[:headlen], payload[headlen+2:len(payload)]...)
+			// build the payload without the padding in new memory: the packet
+			// data may be the caller's buffer (NoCopy) and must not be written to
+			trimmed := make([]byte, 0, len(payload)-2)
+			trimmed = append(trimmed, payload[:headlen]...)
+			payload = append(trimmed, payload[headlen+2:]...)
 		}
 	}
 
